@@ -4,5 +4,14 @@ import (
 	"github.com/sirupsen/logrus"
 )
 
+var log *logrus.Logger
+
 // AperLog : Log entry of aper
 var AperLog *logrus.Entry
+
+func init() {
+	log = logrus.New()
+	log.SetReportCaller(false)
+
+	AperLog = log.WithFields(logrus.Fields{"component": "LIB", "category": "Aper"})
+}
